@@ -94,6 +94,11 @@ func driveField(c *ctx) {
 	for i := 0; i < c.scale(300, 5000); i++ {
 		bin(randBig(r, bigP), randBig(r, bigP))
 	}
+	// pairs whose INTERNAL limbs differ by a pattern that a careless accumulation of limb differences cancels
+	for _, tw := range limbTwins(r, bigP) {
+		bin(tw[0], tw[1])
+		bin(tw[1], tw[0])
+	}
 	// sum window: a + b in [p, 2^256): a = p - d1, b = d2 with d1 <= d2 < d1 + (2^256 - p)
 	cwin := new(big.Int).Sub(big2_256, bigP)
 	for i := 0; i < c.scale(200, 3000); i++ {
